@@ -477,7 +477,7 @@ pub fn run(ctx: &Ctx) -> Outcome {
         sizes.len() - before
     };
     let ns = sizes.len();
-    let report = run_sharded(ctx, ns + seq_shards, |shard, rep| {
+    let mut report = run_sharded(ctx, ns + seq_shards, |shard, rep| {
         if shard < ns {
             let (w, h) = sizes[shard];
             exhaustive_size((shard * 7) as u8, w, h, rep);
@@ -497,6 +497,12 @@ pub fn run(ctx: &Ctx) -> Outcome {
             }
         }
     });
+    {
+        // the same calls from a thread-local destructor while a thread exits (see exitprobe.rs)
+        let mut at_exit = Report::new();
+        crate::exitprobe::check("page", MON, &mut at_exit);
+        report.merge(at_exit);
+    }
     let floors = vec![
         floor("every page asked for could be built (otherwise the bounds rules were not observed on those sizes)", report.get("pages_that_could_not_be_built") == 0, report.get("pages_that_could_not_be_built")),
         floor("every size of the box explored", report.get("box_sizes_done") == box_n as u64, report.get("box_sizes_done")),
